@@ -398,6 +398,26 @@ class Check(Property):
                 if got != ["weird7"] or val != 6.0:
                     v.append(f"C13 define('weird7 = 3 * meter ** 7') {'after' if asked_first else 'without'} a query "
                              f"get_compatible_units('meter ** 7'): listing {got}, 2 weird7 = {val} m**7 (expected ['weird7'], 6.0)")
+            # a prefix defined after spellings that need it were asked for (and refused): the answers equal those of a registry
+            # that got the prefix first
+            def prefix_answers(reg_):
+                out = []
+                for f in (lambda: "myriameter" in reg_, lambda: reg_.get_name("myriameter"), lambda: str(reg_.parse_units("mym")),
+                          lambda: str(reg_.Quantity(3, "mym").to("meter")), lambda: str(reg_("2 myriameter / s").to_base_units()),
+                          lambda: str(reg_.Quantity(1, "myriagrams").to("kilogram")), lambda: reg_.get_symbol("myriasecond")):
+                    try:
+                        out.append(f())
+                    except Exception as exc:  # noqa: BLE001
+                        out.append(type(exc).__name__)
+                return out
+            asked = regs.fresh("float")
+            prefix_answers(asked)
+            asked.define("myria- = 10000 = my-")
+            first = regs.fresh("float")
+            first.define("myria- = 10000 = my-")
+            got, want = prefix_answers(asked), prefix_answers(first)
+            if got != want:
+                v.append(f"C13 prefix myria- defined after its spellings had been asked for: {got}; a registry that got the prefix first: {want}")
             u = self.mkreg()
             with u.context("c13ctx"):
                 u.define("zork = 2 * meter")
